@@ -13,9 +13,15 @@
   real role. The `_is_code` theorems identify the model with those tables, so
   the theorems below are about what the code computes now. The model as a
   whole is tied by the correspondence run (harness/props/c14).
+
+  Second part (Model/VarsTree, Proofs/VarsTree): the LOADED tree (iterator
+  expansion) and histories of runtime writes on it — a write is visible exactly
+  in the subtree of the role it was written on, for all trees and all histories;
+  tied by differential runs on trees loaded through the real ProcessTemplates.
 -/
 import ControlModel.Gen.VarsFacts
 import ControlModel.Proofs.Vars
+import ControlModel.Proofs.VarsTree
 import ControlModel.Spec.C14
 
 open Vars
@@ -253,6 +259,153 @@ theorem C14_cmd_as_coded (keys : List String) (special : KV) (p : Path) (locals 
   rw [(C14_template_below_workflow _ special td tv k (hclear k hk)).1, lookup_consolidated]
   simp [firstDefined, rankedCmdAsCoded, get_append, get_cons]
 
+/-! ## writes after load: visible exactly in the subtree of the role they were written on
+
+  `Forest` = the loaded role tree (iterators expanded, `expand`), `updAt f t r` = what
+  `SetRuntimeVar`/`DeleteRuntimeVar` on the role at address `r` does to the tree,
+  `applyWrites` = a whole history (with the `Global` variants landing on the root),
+  `chainAt t s` = the roles from the root down to `s`: everything observed at `s`
+  (`modelObs`) is a function of that chain and the environment. -/
+
+/-- FRAME: a write on `r` leaves every role `s` that is neither `r` nor below `r`
+    exactly as it was — for every tree, every map transformation, every pair of roles. -/
+theorem C14_write_frame (f : KV → KV) (t : Forest) (r s : Addr) (h : isAnc r s = false) :
+    chainAt (updAt f t r) s = chainAt t s := by
+  by_cases hr : r = []
+  · subst hr; rw [updAt_nil_addr]
+  · rw [chainAt_updAt f t r s hr]
+    simp [h]
+
+/-- … and at `r` itself and everywhere below it, it is a change of `r`'s OWN user
+    vars (position `|r| - 1` of the chain), nothing else. -/
+theorem C14_write_lands_on_own_level (f : KV → KV) (t : Forest) (r s : Addr) (hr : r ≠ [])
+    (h : isAnc r s = true) :
+    chainAt (updAt f t r) s = (chainAt t s).map fun c => modUser f c (r.length - 1) := by
+  rw [chainAt_updAt f t r s hr]
+  simp [h]
+
+/-- HISTORIES: after ANY sequence of writes on ANY roles of ANY tree, role `s` is
+    its original chain with exactly those writes replayed that were made on `s` or
+    on an ancestor of `s`, each on the level it was made on (`replay`). -/
+theorem C14_history_ancestors_only (t : Forest) (ws : List Write) (s : Addr) :
+    chainAt (applyWrites t ws) s = (chainAt t s).map fun c => replay s c ws :=
+  chainAt_applyWrites ws t s
+
+/-- A history in which no write was made on `s` or above `s` does not exist for `s`:
+    a write at role r changes the resolution at role s only if r is s or an ancestor of s. -/
+theorem C14_history_untouched (t : Forest) (ws : List Write) (s : Addr) (h : untouched ws s = true) :
+    chainAt (applyWrites t ws) s = chainAt t s := by
+  rw [chainAt_applyWrites]
+  cases chainAt t s with
+  | none => rfl
+  | some c => simp [replay_untouched s ws h c]
+
+/-- Whole tree: the mechanism (mutate the tree write by write, then look at every role)
+    yields the role descriptions the rule prescribes (`rolesReplayed`, what `Spec.writesOk` uses). -/
+theorem C14_history_roles (t : Forest) (ws : List Write) (env : Path) (tmpl : Option (KV × KV)) :
+    rolesAfter t ws env tmpl = rolesReplayed t ws env tmpl :=
+  rolesAfter_eq_rolesReplayed t ws env tmpl
+
+/-- … and so what the model observes at every role after a history is what the
+    documented precedence demands of that role's own chain (same excluded class as
+    `C14_model_meets_spec_partial`: the command line of a task template). -/
+theorem C14_history_meets_spec_partial (keys : List String) (special : KV) (t : Forest) (ws : List Write)
+    (env : Path) (tmpl : Option (KV × KV)) (hclear : ∀ k ∈ keys, lookup special k = none)
+    (hyp : ∀ r ∈ rolesReplayed t ws env tmpl, tmplOrderIrrelevant keys r = true) :
+    (rolesAfter t ws env tmpl).map (modelObs keys special) = (rolesReplayed t ws env tmpl).map (expected keys) := by
+  rw [C14_history_roles]
+  apply List.map_congr_left
+  intro r hr
+  exact C14_model_meets_spec_partial keys special r hclear (hyp r hr)
+
+/-- `caseOk` accepts exactly the list of expected observations … -/
+theorem C14_caseOk_expected (keys : List String) (rs : List RoleIn) :
+    caseOk keys rs (rs.map (expected keys)) = true := by
+  induction rs with
+  | nil => rfl
+  | cons r rest ih => simp [caseOk, roleOk, ih]
+
+/-- … hence the model's observation of a loaded tree after any history satisfies `Spec.writesOk`. -/
+theorem C14_history_writesOk_partial (keys : List String) (special : KV) (t : Forest) (ws : List Write)
+    (env : Path) (tmpl : Option (KV × KV)) (hclear : ∀ k ∈ keys, lookup special k = none)
+    (hyp : ∀ r ∈ rolesReplayed t ws env tmpl, tmplOrderIrrelevant keys r = true) :
+    writesOk keys t ws env tmpl ((rolesAfter t ws env tmpl).map (modelObs keys special)) = true := by
+  rw [C14_history_meets_spec_partial keys special t ws env tmpl hclear hyp]
+  exact C14_caseOk_expected keys _
+
+/-- What role `s` SEES after `SetRuntimeVar(k, v)` on the `i`-th role of its chain
+    (itself or an ancestor): for `k`, a user var of a role nearer to `s` still wins,
+    otherwise `v` — above every user var further up, every var, every default and the
+    environment; every other key resolves as before. -/
+theorem C14_set_seen_in_subtree (c : List Node) (env : Path) (i : Nat) (hi : i < c.length) (k v k' : String) :
+    lookup (consolidated (pathOf (modUser (Op.set k v).apply c i) env)) k' =
+      if k = k' then orElse (get (uChain (pathOf (c.drop (i + 1)) [])) k) (some v)
+      else lookup (consolidated (pathOf c env)) k' := by
+  rw [lookup_consolidated, lookup_consolidated, get_ranked_modUser _ c env i hi, get_ranked_pathOf c env i hi]
+  by_cases h : k = k'
+  · subst h
+    simp only [Op.apply, lookup_set, if_true]
+    cases get (uChain (pathOf (c.drop (i + 1)) [])) k <;> rfl
+  · simp only [Op.apply, lookup_set, h, if_false]
+
+/-- `DeleteRuntimeVar(k)` on the `i`-th role of the chain removes exactly that role's
+    own definition: `s` then sees what the remaining sources say — nearer user vars,
+    user vars further up (environment included), vars, defaults; other keys as before. -/
+theorem C14_del_reveals_inherited (c : List Node) (env : Path) (i : Nat) (hi : i < c.length) (k k' : String) :
+    lookup (consolidated (pathOf (modUser (Op.del k).apply c i) env)) k' =
+      if k = k' then
+        orElse (get (uChain (pathOf (c.drop (i + 1)) [])) k)
+          (orElse (get (uChain (pathOf (c.take i) env)) k)
+            (orElse (get (vChain (pathOf c env)) k) (get (dChain (pathOf c env)) k)))
+      else lookup (consolidated (pathOf c env)) k' := by
+  rw [lookup_consolidated, lookup_consolidated, get_ranked_modUser _ c env i hi, get_ranked_pathOf c env i hi]
+  by_cases h : k = k'
+  · subst h
+    simp only [Op.apply, lookup_erase, if_true, orElse_none]
+  · simp only [Op.apply, lookup_erase, h, if_false]
+
+/-- The path `modelObs` is evaluated on IS the chain's levels, nearest first, then the environment. -/
+theorem C14_role_path_is_chain (env : Path) (tmpl : Option (KV × KV)) (c : List Node) (r : RoleIn)
+    (h : roleInOf env tmpl c = some r) : r.path = pathOf c env :=
+  roleInOf_path env tmpl c r h
+
+/-- Sibling subtrees are isolated: a write on child `i` of a role (or anywhere it
+    is the target) changes nothing at child `j ≠ i` of the same role nor below it. -/
+theorem C14_sibling_subtrees_isolated (f : KV → KV) (t : Forest) (pre : Addr) (i j : Nat) (rest : Addr)
+    (h : i ≠ j) : chainAt (updAt f t (pre ++ [i])) (pre ++ j :: rest) = chainAt t (pre ++ j :: rest) :=
+  C14_write_frame f t _ _ (isAnc_sibling pre i j rest h)
+
+/-- Iterator expansion: the `j`-th value of the range yields the `j`-th sibling — the
+    template's own maps plus `var = value`, over the same (expanded) children; the
+    instances ARE siblings, so by `C14_sibling_subtrees_isolated` a runtime variable
+    written on one instance (or below it) does not exist for the others. -/
+theorem C14_iter_instances_are_siblings (var : String) (vals : List String) (n : Node) (kids next : TForest)
+    (j : Nat) (hj : j < vals.length) (more : Addr) :
+    chainAt (expand (.iter var vals n kids next)) (j :: more)
+      = chainAt (.role (withIter n var vals[j]) (expand kids) .nil) (0 :: more) := by
+  simp only [expand]
+  exact chainAt_instances var n (expand kids) (expand next) vals j hj more
+
+/-- … and the roles after the iterator keep their order behind the instances. -/
+theorem C14_iter_then_next (var : String) (vals : List String) (n : Node) (kids next : TForest)
+    (j : Nat) (more : Addr) :
+    chainAt (expand (.iter var vals n kids next)) ((vals.length + j) :: more) = chainAt (expand next) (j :: more) := by
+  simp only [expand]
+  exact chainAt_instances_rest var n (expand kids) (expand next) vals j more
+
+/-- The iteration variable is an own VAR of the instance (below its user vars,
+    above every inherited var); nothing else of the template changes. -/
+theorem C14_iter_var_is_own_var (n : Node) (var val k : String) :
+    lookup (withIter n var val).own.vars k = (if var = k then some val else lookup n.own.vars k) ∧
+    (withIter n var val).own.defaults = n.own.defaults ∧ (withIter n var val).own.userVars = n.own.userVars := by
+  simp [withIter, lookup_set]
+
+/-- `SetGlobalRuntimeVar` / `DeleteGlobalRuntimeVar` called on any role act on the
+    root above it — an ancestor of every role under that root. -/
+theorem C14_global_write_reaches_all (a : Nat) (x : Addr) (op : Op) (rest : Addr) :
+    (Write.mk (a :: x) true op).target = [a] ∧ isAnc (Write.mk (a :: x) true op).target (a :: rest) = true := by
+  simp [Write.target, isAnc]
+
 /-! ## non-vacuity and contrast -/
 
 /-- A realistic path: task role under an aggregator under the root, environment
@@ -273,3 +426,29 @@ example :
 /-- Contrast: WITHOUT `WithOverride` the empty-is-a-definition clause would fail —
     a child's empty value would lose against the parent's non-empty one. -/
 example : lookup (mergo false [("k", "parent")] [("k", "")]) "k" = some "parent" := by decide
+
+/-- The scenario of a call returning a value inside an iterated role: root (default
+    `result`) over an iterator `host-{{ it }}` for a, b, each instance with a call role
+    `hook` and a task role `readout`. `hook` of host-a gets `result` (SetRuntimeVar, as
+    callable.Call does), host-a gets `flag`, some role calls SetGlobalRuntimeVar.
+    host-a's subtree sees them; host-b, its hook and its readout see the root default,
+    no `flag`, and the global value; `it` stays the instance's own value. -/
+example :
+    let leaf (task : Bool) : TForest → TForest := .role { own := { defaults := [], vars := [], userVars := [] }, locals := [], task := task } .nil
+    let tf : TForest :=
+      .role { own := { defaults := [("result", "from-root")], vars := [], userVars := [] }, locals := [], task := false }
+        (.iter "it" ["a", "b"] { own := { defaults := [], vars := [("host_var", "hv")], userVars := [] }, locals := [], task := false }
+          (leaf false (leaf true .nil)) .nil) .nil
+    let ws : List Write := [⟨[0, 0, 0], false, .set "result" "returned-on-a"⟩, ⟨[0, 0], false, .set "flag" "a-only"⟩,
+                            ⟨[0, 1, 1], true, .set "run" "42"⟩]
+    let see (a : Addr) (k : String) : Option String :=
+      ((chainAt (applyWrites (expand tf) ws) a).map fun c => lookup (consolidated (pathOf c [])) k).join
+    (preorder (expand tf) 0 []).length = 7 ∧
+    see [0, 0, 0] "result" = some "returned-on-a" ∧ see [0, 0, 1] "result" = some "from-root" ∧
+    see [0, 0, 1] "flag" = some "a-only" ∧
+    see [0, 1] "result" = some "from-root" ∧ see [0, 1, 0] "result" = some "from-root" ∧ see [0, 1, 1] "result" = some "from-root" ∧
+    see [0, 1] "flag" = none ∧ see [0, 1, 0] "flag" = none ∧ see [0, 1, 1] "flag" = none ∧
+    see [0, 0, 0] "run" = some "42" ∧ see [0, 1, 0] "run" = some "42" ∧ see [0] "run" = some "42" ∧
+    see [0, 0, 1] "it" = some "a" ∧ see [0, 1, 1] "it" = some "b" ∧
+    untouched ws [0, 1, 0] = false ∧ untouched (ws.take 2) [0, 1, 0] = true := by
+  decide
